@@ -865,7 +865,7 @@ fn main() -> std::process::ExitCode {
         "C13",
         "IL functions from gen_fn (2-9 blocks, 1-4 ops, constants, arithmetic, branches assigning different constants, loop-carried updates, loads/stores, intrinsics with declared and undeclared effects, calls; optional blocks unreachable from the entry that feed live ones) in four modes (arbitrary / minimal prologue for may-be-unassigned scalars / full prologue / one name at two widths) x 1-3 reference executions (Branch = returning call with havoc); definite assignment decided by an own must-assigned data-flow; constants() must be Ok on definitely-assigned functions; on every Ok the map entry of each executed location and Constants::eval of every (sub-)expression occurring there are compared with the reference state immediately before the location, restricted to scalars the function itself assigned in that execution; non-trivial = a reported constant was compared at a location reached after >= 1 join or >= 1 loop iteration; distinct = (mode, #blocks, cyclic, unreachable-feeds-live, operation kinds present, capped joins / iterations / comparisons)",
         Box::new(|_t: Tier| from_tape(1600, decode)),
-        |t| t.pick(40_000, 2_000_000),
+        |t| t.pick(200_000, 6_000_000),
         check,
     );
     spec.render = render;
